@@ -10,7 +10,8 @@ RULE = ("grid cases: 1..12 servers, each normal / full / read-only (announced or
         "N+1), N in 1..10; pre-existing complete shares anywhere (share files of a fault-free upload of the same file copied onto chosen "
         "servers, several servers holding the same share, one or two servers holding most share numbers with happy exactly at what is "
         "reachable and a write/close fault on a server that receives one of those share numbers again, or a real earlier upload that "
-        "could only reach a subset of the servers); 1-4 "
+        "could only reach a subset of the servers); slow servers whose allocate_buckets answer arrives just after the selector's 15 s "
+        "timeout on grids that are only just big enough with / without them; 1-4 "
         "segments, write batches of 1 MB or of 40..400 bytes (several remote writes per share); every response ordering by seed; "
         "non-trivial = the upload meets at least one non-normal server, fault or pre-existing share; distinct = distinct scenario data")
 META = {
@@ -54,9 +55,11 @@ class Recorder(object):
                 "err_landlords": [...]|None, "done_landlords": [...]|None}
     """
 
-    def __init__(self, g, batch=None):
+    def __init__(self, g, batch=None, late=()):
         self.g = g
         self.batch = batch
+        self.late = set(late)        # slow servers: the withheld allocate_buckets answer arrives just after the selector timed it out
+        self.late_delivered = []
         self.existing = []
         self.rounds = []
         self.aborts = []
@@ -134,6 +137,9 @@ class Recorder(object):
         def ba(sel, res, tracker, shares_to_ask):
             if isinstance(res, Failure):
                 rec.rounds[-1]["resps"].append((rec.ix(tracker.get_serverid()), ("err",)))
+                if rec.ix(tracker.get_serverid()) in rec.late:
+                    from foolscap.eventual import eventually
+                    eventually(rec.deliver_late, rec.ix(tracker.get_serverid()))
             else:
                 rec.rounds[-1]["resps"].append((rec.ix(tracker.get_serverid()), ("ok", sorted(res[0]), sorted(res[1]))))
             return o_ba(sel, res, tracker, shares_to_ask)
@@ -219,6 +225,18 @@ class Recorder(object):
             setattr(obj, name, old)
         self._saved = []
         return False
+
+    def deliver_late(self, server):
+        """The answer the scheduler withholds for `server`'s allocate_buckets (fault plan delay/until timers) arrives now: one
+        reactor turn after the selector gave up on that query (15 s timeout) and while it is already asking again."""
+        sched = self.g.sched
+        for c in list(sched.delayed):
+            if c.server == server and c.method == "allocate_buckets":
+                sched.delayed.remove(c)
+                sched.delayed.insert(0, c)
+                sched.deliver_delayed(after_timers=True)
+                self.late_delivered.append(server)
+                return
 
     def selector_state(self):
         """Final bookkeeping of the real selector, canonicalised (server indices, sorted lists)."""
@@ -390,7 +408,7 @@ def run_scenario(sc):
         apply_states(g, sc.get("states", {}))
         g.set_faults(sc.get("faults", []))
         n0 = len(g.sched.trace)
-        with Recorder(g, batch=sc.get("batch")) as rec:
+        with Recorder(g, batch=sc.get("batch"), late=sc.get("late", ())) as rec:
             out = g.run(later(lambda: g.upload_results(data, convergence=CONVERGENCE)), outcome=True)
             drained = g.run(defer.Deferred(), outcome=True)
         obs["status"] = out.status if out.status != "error" else out.error
@@ -405,6 +423,7 @@ def run_scenario(sc):
         obs["visible"] = sorted(vis)
         obs["partial"] = sorted(k_ for k_, v in vis.items() if v != ref["shares"][k_[1]])
         obs["incoming"] = incoming_shares(g, si)
+        obs["late_delivered"] = list(rec.late_delivered)
         if getattr(rec, "encoder", None) is not None and rec.enc["landlords"] is not None:
             rec.enc["final_servermap"] = dict((sh, sorted(rec.ix(p) for p in ps)) for sh, ps in rec.encoder.servermap.items())
             rec.enc["final_landlords"] = sorted(rec.encoder.landlords.keys())
@@ -589,6 +608,38 @@ def gen_multihold(r, sc):
     return sc
 
 
+def slow_fault(server):
+    return {"server": server, "method": "allocate_buckets", "nth": 0, "count": 1, "action": "delay", "until": "timers"}
+
+
+def gen_latealloc(r, sc):
+    """A grid that is only just big enough, with one (rarely two) SLOW servers: the first allocate_buckets answer of a slow server
+    is withheld past the selector's 15 s timeout and arrives right after it, while the selector is asking again.  The late buckets
+    are never written, so they must not count: happy is the number of prompt healthy servers plus one (must fail), sometimes
+    exactly that number (must succeed on the prompt servers alone)."""
+    S = max(2, min(sc["servers"], 8))
+    N = r.randint(S, 10) if r.random() < 0.8 else max(2, r.randint(2, S))
+    sc["servers"], sc["N"], sc["k"] = S, N, min(sc["k"], N)
+    sc["segsize"] = max(sc["k"], sc["segsize"])
+    late = r.sample(range(S), 1 if (S < 4 or r.random() < 0.8) else 2)
+    states, pre = {}, set()
+    for s in range(S):
+        if s not in late and r.random() < 0.12:
+            states[str(s)] = r.choice(["full", "ro", "ro-announced"])
+    if r.random() < 0.3:
+        for _ in range(r.randint(1, 2)):
+            pre.add((r.randrange(S), r.randrange(N)))
+    prompt = [s for s in range(S) if s not in late and str(s) not in states]
+    reach = kuhn(set(pre) | set((s, sh) for s in prompt for sh in range(N)))
+    sc["late"] = sorted(late)
+    sc["pre"] = sorted(list(e) for e in pre)
+    sc["states"] = states
+    sc["faults"] = [slow_fault(s) for s in sorted(late)]
+    sc["happy"] = max(1, min(N, r.choice([reach + 1, reach + 1, reach + 1, reach])))
+    sc["download"] = r.random() < 0.4
+    return sc
+
+
 def gen_scenario(r, thorough=False):
     S = r.choice([1, 2, 3, 3, 4, 4, 5, 5, 6, 6, 7, 8, 8, 10, 12])
     N = r.choice([1, 2, 3, 3, 4, 4, 5, 5, 6, 6, 8, 10])
@@ -599,9 +650,11 @@ def gen_scenario(r, thorough=False):
     segsize = max(k, -(-size // nseg))
     batch = r.choice([None, None, 40, 100, 400])
     sc = {"seed": r.getrandbits(30), "servers": S, "k": k, "N": N, "size": size, "segsize": segsize, "batch": batch}
-    style = r.choice(["clean", "mixed", "mixed", "mixed", "hostile", "preheavy", "dupes", "multihold", "multihold"])
+    style = r.choice(["clean", "mixed", "mixed", "mixed", "hostile", "preheavy", "dupes", "multihold", "multihold", "latealloc"])
     if style == "multihold":
         return gen_multihold(r, sc)
+    if style == "latealloc":
+        return gen_latealloc(r, sc)
     states, faults = {}, []
     p_bad = {"clean": 0.0, "mixed": 0.3, "hostile": 0.6, "preheavy": 0.25, "dupes": 0.5}[style]
     for s in range(S):
@@ -658,11 +711,13 @@ def gen_scenario(r, thorough=False):
 
 def excused_incoming(sc):
     """Servers on which an allocated bucket may legitimately stay in incoming/: abort cannot be delivered (broken) or the
-    client never learnt of the allocation (answer to allocate_buckets lost or turned into an error after execution)."""
+    client never learnt of the allocation in time (answer to allocate_buckets lost, turned into an error after execution, or
+    arriving after the selector's 15 s timeout)."""
     ex = set(int(s) for s, st in sc.get("states", {}).items() if st == "broken")
     for f in sc.get("faults", []):
         if f.get("method") == "allocate_buckets" and f.get("action") in ("drop_response", "error_after"):
             ex.add(f["server"])
+    ex |= set(sc.get("late", ()))      # answer arrived after the selector's timeout: the uploader never uses nor aborts those buckets
     return ex
 
 
@@ -754,6 +809,13 @@ def designed():
         sc(servers=3, N=3, happy=2, pre=[[0, 0], [0, 1], [0, 2]], states={"1": "full"}, faults=[{"server": 2, "method": "write", "nth": 1, "count": 1, "action": "error"}]),
         sc(servers=4, N=4, happy=3, pre=[[0, 0], [0, 1], [0, 2], [0, 3], [1, 0], [1, 1]], states={"0": "ro-announced", "1": "ro"},
            faults=[{"server": 2, "method": "write", "nth": 1, "count": 1, "action": "error"}, {"server": 3, "method": "close", "nth": 0, "count": 1, "action": "error"}]),
+        # a slow server: its allocate_buckets answer arrives after the selector's timeout; the buckets are never written and must
+        # not count.  Grid just big enough with it (must fail) / without it (must succeed on the prompt servers)
+        sc(servers=7, k=3, N=10, happy=7, size=1000, segsize=999, batch=None, late=[3], faults=[slow_fault(3)]),
+        sc(servers=8, k=3, N=10, happy=7, size=1000, segsize=999, batch=None, late=[5], faults=[slow_fault(5)]),
+        sc(servers=2, N=2, happy=2, late=[1], faults=[slow_fault(1)]),
+        sc(servers=3, N=4, happy=3, late=[0], faults=[slow_fault(0)]),
+        sc(servers=4, N=4, happy=3, late=[2], states={"1": "full"}, pre=[[1, 0]], faults=[slow_fault(2)]),
         # pre-existing shares count towards happiness; a failing server that holds one still counts as found
         sc(servers=3, N=3, happy=3, pre=[[0, 0], [1, 1]], states={"0": "ro-announced", "1": "ro-announced"}),
         sc(servers=3, N=3, happy=3, pre=[[0, 0], [1, 0]], states={"0": "ro-announced", "1": "ro-announced"}),
@@ -777,7 +839,7 @@ def corpus_scenarios():
 # driver
 # ---------------------------------------------------------------------------------------------
 def nontrivial(sc):
-    return bool(sc.get("states")) or bool(sc.get("pre")) or sc.get("first") is not None or \
+    return bool(sc.get("states")) or bool(sc.get("pre")) or sc.get("first") is not None or bool(sc.get("late")) or \
         any(f.get("action") != "delay" for f in sc.get("faults", []))
 
 
